@@ -7,11 +7,11 @@
        all threads finished after s -> Ref (final world).
    It is refuted by three witnesses (a fourth, three-operation race found by exploring
    triples was repaired: RemoveNode now re-reads the node under the pod lock) (the C22_refuted theorems); what holds instead is the
-   C22_partial theorems below; C22_general_* are the UNBOUNDED ones (all worlds,
-   all names, any number of concurrent pod / node operations, every schedule),
-   proved by an ownership invariant over the interleaving system; the bounded
-   explorer results are kept as instances (they also cover create / remove and
-   single failures).  This file contains only the property theorems. *)
+   C22_partial theorems below; C22_general* are the UNBOUNDED ones (all worlds,
+   all names, any number of concurrent operations of all six kinds, every
+   schedule, no injected failure), proved by an ownership invariant over the
+   interleaving system; the bounded explorer results are kept as instances
+   (they also cover single failures).  This file contains only the property theorems. *)
 From Coq Require Import List String.
 From Verif Require Import Calcium.Refs Calcium.RefsProofs Calcium.RefsIsolation Calcium.RefsGeneral.
 Import ListNotations.
@@ -49,45 +49,49 @@ Proof. exact explore_sound. Qed.
 Print Assumptions C22_explore_sound.
 
 (* GENERAL (unbounded): ANY world with Ref, distinct node names and no lock
-   held; ANY list of AddPod / RemovePod / AddNode / RemoveNode operations (any
-   number, any names, repeated and overlapping); EVERY schedule.  When all
-   operations have finished, Ref holds or the trace contains the
-   AddNode/RemovePod check-then-act overlap (witness 1's window).  Proof:
-   inductive invariant over the interleaving system (RefsGeneral.v): ownership
-   of resource records without a node by exactly one in-flight AddNode /
-   RemoveNode, lock table = the lock footprints of the control states, per
-   control-state assertions about the trace; no bound, no exploration. *)
-Theorem C22_general_podnode : forall w ops sched w' ts' tr,
+   held; ANY list of AddPod / RemovePod / AddNode / RemoveNode / create (one
+   instance) / remove-workload operations (any number, any names, repeated and
+   overlapping); EVERY schedule; no injected failure.  When all operations have
+   finished, Ref holds or the trace contains one of the two check-then-act
+   overlaps (witness 1's and witness 2's windows).  Proof: inductive invariant
+   over the interleaving system (RefsGeneral.v): ownership of resource records
+   without a node by exactly one in-flight AddNode / RemoveNode, lock table =
+   the lock footprints of the control states (pod locks and workload locks),
+   per control-state assertions about the trace; no bound, no exploration.
+   [rop_of] maps the six operation kinds (RefsGeneral.pnop) to Refs.rop. *)
+Theorem C22_general : forall w ops sched w' ts' tr,
   ref_ok w = true -> NoDup (node_names w) -> held w = [] ->
   run_sched w (mk_threads (map (fun o => (rop_of o, None)) ops)) sched [] = (w', ts', tr) ->
   forallb finished ts' = true ->
-  ref_ok w' = true \/ window_addnode_removepod tr = true.
-Proof. exact podnode_general. Qed.
-Print Assumptions C22_general_podnode.
+  ref_ok w' = true \/ window_addnode_removepod tr = true \/ window_create_removenode tr = true.
+Proof. exact general_quiescent. Qed.
+Print Assumptions C22_general.
 
 (* ... and at EVERY reachable state (operations still in flight): every node's
    pod exists, every node has its resource record, every workload's node
-   exists - unless the overlap has happened.  (Only "every resource record has
-   a node" is a quiescent-only clause: an in-flight AddNode / RemoveNode owns
-   its record.) *)
-Theorem C22_general_podnode_always : forall w ops sched w' ts' tr,
+   exists - unless one of the overlaps has happened.  (Only "every resource
+   record has a node" is a quiescent-only clause: an in-flight AddNode /
+   RemoveNode owns its record.) *)
+Theorem C22_general_always : forall w ops sched w' ts' tr,
   ref_ok w = true -> NoDup (node_names w) -> held w = [] ->
   run_sched w (mk_threads (map (fun o => (rop_of o, None)) ops)) sched [] = (w', ts', tr) ->
-  window_addnode_removepod tr = true \/
+  window_addnode_removepod tr = true \/ window_create_removenode tr = true \/
   ((forall n p, In (n, p) (nodes w') -> In p (pods w')) /\
    (forall n p, In (n, p) (nodes w') -> In n (nres w')) /\
    (forall id n, In (id, n) (wls w') -> In n (node_names w'))).
-Proof. exact podnode_always. Qed.
-Print Assumptions C22_general_podnode_always.
+Proof. exact general_always. Qed.
+Print Assumptions C22_general_always.
 
 (* ... and no reachable state is a deadlock: some operation can take a step
-   until all have finished (each operation holds at most one pod lock and never
-   waits while holding it).  Nothing is claimed after the overlap. *)
+   until all have finished (an operation waits for a pod lock holding nothing,
+   and for a workload lock holding one pod lock; holders of workload locks never
+   wait).  Nothing is claimed after an overlap. *)
 Theorem C22_general_no_deadlock : forall w ops sched w' ts' tr,
   ref_ok w = true -> NoDup (node_names w) -> held w = [] ->
   run_sched w (mk_threads (map (fun o => (rop_of o, None)) ops)) sched [] = (w', ts', tr) ->
-  window_addnode_removepod tr = true \/ forallb finished ts' = true \/ enabled_steps w' ts' <> [].
-Proof. exact podnode_no_deadlock. Qed.
+  window_addnode_removepod tr = true \/ window_create_removenode tr = true \/
+  forallb finished ts' = true \/ enabled_steps w' ts' <> [].
+Proof. exact general_no_deadlock. Qed.
 Print Assumptions C22_general_no_deadlock.
 
 (* PARTIAL 1 (bounded universe, all schedules): for every world of u_worlds
